@@ -23,3 +23,36 @@ Proof.
   intros Hp Hn Hk. unfold read_at. rewrite !take_firstn, !drop_skipn.
   apply firstn_skipn_firstn. lia.
 Qed.
+
+(* ---- where a cut falls decides what the lead-in analysis reports ---------- *)
+
+(* A segment at [seg_pos] whose lead-in declares its end explicitly, in a file
+   that has been cut to [k] bytes: nothing survives when the cut is before the
+   end of the metadata, the segment is read to the cut and flagged incomplete
+   when the cut is inside (or at the start of) its raw data, and it is complete
+   otherwise. *)
+Lemma lead_positions_cut seg_pos l k :
+  l_next l <> 0xFFFFFFFFFFFFFFFF ->
+  let dp := seg_pos + 28 + l_raw l in
+  let np := seg_pos + l_next l + 28 in
+  lead_positions seg_pos l (Some k) =
+  Ok (if k <? np then (if k <? dp then LeadEof else LeadOk dp k true)
+      else LeadOk dp np false).
+Proof.
+  intros Hn dp np. unfold lead_positions.
+  destruct (l_next l =? 18446744073709551615) eqn:E.
+  - apply Z.eqb_eq in E. contradiction.
+  - fold dp. fold np. destruct (k <? np); [destruct (k <? dp)|]; reflexivity.
+Qed.
+
+(* With the length-unknown marker the segment always runs to the end of the file
+   and is always flagged incomplete, provided its metadata survives. *)
+Lemma lead_positions_unknown seg_pos l k :
+  l_next l = 0xFFFFFFFFFFFFFFFF ->
+  let dp := seg_pos + 28 + l_raw l in
+  lead_positions seg_pos l (Some k) = Ok (if k <? dp then LeadEof else LeadOk dp k true).
+Proof.
+  intros Hn dp. unfold lead_positions. rewrite Hn. cbn [Z.eqb Pos.eqb]. fold dp.
+  destruct (k <? dp); reflexivity.
+Qed.
+
